@@ -8,11 +8,13 @@ TraceInit == l = 1 /\ cur = NoReq /\ enteredNow = FALSE /\ defs = <<>>
 
 Consume(e) ==
   \/ /\ e.ev = "reset" /\ defs' = e.defs /\ UNCHANGED <<cur, enteredNow>>
+  \/ /\ e.ev = "doc_refs" /\ e.unresolved = <<>>      \* C06/C07: every reference resolves inside the document
+     /\ UNCHANGED <<cur, enteredNow, defs>>
   \/ /\ e.ev = "doc_request" /\ cur' = e /\ enteredNow' = FALSE /\ UNCHANGED defs
   \/ /\ e.ev = "handler_doc" /\ e.n = cur.n /\ e.op = cur.op   \* the documented operation is the one that ran
      /\ enteredNow' = TRUE /\ UNCHANGED <<cur, defs>>
   \/ /\ e.ev = "doc_response" /\ e.n = cur.n
-     /\ RequestOk(defs, cur @@ [expect_handler_error |-> cur.op \in {"doc_fail", "doc_custom", "doc_gadget", "doc_custom_hdr", "doc_custom_fussy", "doc_plain_hdr"}],
+     /\ RequestOk(defs, cur @@ [expect_handler_error |-> cur.op \in {"doc_fail", "doc_custom", "doc_gadget", "doc_with_retry_header", "doc_custom_hdr", "doc_custom_fussy", "doc_plain_hdr"}],
                   e.status, enteredNow) = TRUE
      /\ ResponseOk(defs, e) = TRUE
      /\ UNCHANGED <<cur, enteredNow, defs>>
